@@ -97,17 +97,20 @@ async fn handle(
 ) {
     let (read_half, mut write_half) = stream.into_split();
     let mut reader = BufReader::new(read_half);
-    let mut line = String::new();
+    // Raw bytes, not `read_line`: a request line that is not valid UTF-8 is
+    // answered with a parse error (same as the stdin entry point) instead of
+    // closing the connection.
+    let mut line: Vec<u8> = Vec::new();
     let (push_tx, mut push_rx) = mpsc::channel::<String>(128);
     let mut owned_ids: Vec<String> = Vec::new();
 
     loop {
         tokio::select! {
-            read_res = reader.read_line(&mut line) => {
+            read_res = reader.read_until(b'\n', &mut line) => {
                 match read_res {
                     Ok(0) => break, // EOF
                     Ok(_) => {
-                        let trimmed = line.trim().to_string();
+                        let trimmed = String::from_utf8_lossy(&line).trim().to_string();
                         line.clear();
                         if trimmed.is_empty() {
                             continue;
